@@ -25,4 +25,42 @@
    (!((A) >= (H)) || (sA) == S_FREE) && ((sA) == S_FREE || (A) + (size) >= (H)) &&                             \
    (!((sA) == S_FULL || (sA) == S_CR) || ((cA) == (vA) && (vA) != 0)) && ((sA) != S_CW || (cA) == 0) &&        \
    (!((sA) == S_FREE && (A) < (H) && (A) + (size) >= (H)) || (cA) == 0))
+
+#define PUSHER 0
+#define POPPER 1
+/* seen_ok: when I read my slot I already knew low and high, and the counter my CAS will move still had the value I read
+   (pusher: high = hi, popper: low = lo).  Only then is the slot content a fact about MY index (order of the reads matters
+   exactly through this flag; any other permutation of the reads is harmless). */
+typedef struct { int role, have_lo, have_hi, have_seen, seen_ok, claimed, wrote; uint64_t lo, hi; void* seen; } rb_me_t;
+/* knowledge clauses: facts about what an operation has read that no other operation can invalidate (lemmas.c: established
+   by the reads, stable under every action of another operation).  cMy = content of the slot of my index. */
+static int rb_know(rb_me_t m, uint64_t H, uint64_t L, uint64_t size, uint64_t A, int sA, void* vA, void* cMy) {
+  if (m.have_lo && !(m.lo <= L)) return 0;
+  if (m.have_hi && !(m.hi <= H)) return 0;
+  if (m.role == PUSHER) {
+    if (!m.claimed && m.have_hi && m.have_lo && m.have_seen && m.seen_ok && m.seen == 0 && m.hi - m.lo < size && m.lo <= m.hi && H == m.hi) {
+      /* I saw the slot of h empty with room left: while high is still h the previous occupant h - size is popped and cleared */
+      if (cMy != 0) return 0;
+      if (A + size == m.hi && sA != S_FREE) return 0;
+    }
+    if (m.claimed && !m.wrote) { /* my claimed, unwritten index */
+      if (!(H > m.hi) || cMy != 0) return 0;
+      if (A == m.hi && sA != S_CW) return 0;
+      if (A + size == m.hi && sA != S_FREE) return 0;
+      if (!(L <= m.hi)) return 0; /* an unwritten index cannot be popped */
+    }
+  } else {
+    if (!m.claimed && m.have_hi && m.have_lo && m.have_seen && m.seen_ok && m.seen != 0 && m.hi > m.lo && L == m.lo) {
+      /* I saw a value in the slot of l with l < h0: while low is still l that value is the one pushed for index l */
+      if (cMy != m.seen) return 0;
+      if (A == m.lo && !(sA == S_FULL && vA == m.seen)) return 0;
+    }
+    if (m.claimed && !m.wrote) { /* my claimed, uncleared index */
+      if (!(L > m.lo) || cMy != m.seen) return 0;
+      if (A == m.lo && !(sA == S_CR && vA == m.seen)) return 0;
+      if (!(H <= m.lo + size)) return 0; /* the slot cannot be claimed again before I clear it */
+    }
+  }
+  return 1;
+}
 #endif
